@@ -217,16 +217,31 @@ def py_bs(st, trace_size, input_size, itemsize):
 
 # ------------------------------------------------------------------------------------------- building the real objects
 
-def make_sf(guesses):
+class PoisonError(Exception):
+    """Raised on purpose by the harness preprocess / selection function on the poisoned trace of a failing run()."""
+
+
+SENTINEL_SAMPLE = 77       # every sample of a poisoned trace (generated samples are <= 10)
+SENTINEL_META = 200        # every metadata word of a poisoned trace (only in cases whose metadata are < 16)
+
+
+def make_sf(guesses, poison=False):
     import scared
+
+    def guard(plaintext):
+        if poison and np.any(plaintext == SENTINEL_META):
+            raise PoisonError('selection function refuses this batch')
+
     if guesses is None:
         @scared.reverse_selection_function
         def rsf(plaintext):
+            guard(plaintext)
             return plaintext
         return rsf
 
     @scared.attack_selection_function(guesses=np.array(guesses, dtype='uint8'))
     def asf(plaintext, guesses):
+        guard(plaintext)
         out = np.empty((plaintext.shape[0], len(guesses), plaintext.shape[1]), dtype='uint8')
         for i, g in enumerate(guesses):
             out[:, i, :] = np.bitwise_xor(plaintext, g)
@@ -240,12 +255,15 @@ def make_model(m):
         return scared.Value()
     if m[0] == 'hw':
         return scared.HammingWeight()
+    if m[0] == 'hww':
+        return scared.HammingWeight(nb_words=int(m[1]))
     return scared.Monobit(int(m[1]))
 
 
 def analysis_kwargs(case, convergence_step=None):
     import scared
-    kw = {'selection_function': make_sf(case['guesses']), 'model': make_model(case['model']), 'precision': case['prec']}
+    poison = any(r.get('fail') is not None and r.get('fail_how') == 'sf' for r in case.get('runs', []))
+    kw = {'selection_function': make_sf(case['guesses'], poison), 'model': make_model(case['model']), 'precision': case['prec']}
     if case['guesses'] is not None:
         kw['discriminant'] = getattr(scared, case['disc'])
         if convergence_step is not None:
@@ -253,8 +271,32 @@ def analysis_kwargs(case, convergence_step=None):
     if case['cls'] in PARTITIONED:
         kw['partitions'] = None if case['partitions'] is None else np.array(case['partitions'], dtype='int32')
     if case['cls'] == 'MIA':
-        kw['bin_edges'] = [float(v) for v in case['bin_edges']]
+        kw['bin_edges'] = bin_edges_of(case)
     return kw
+
+
+def bin_edges_of(case):
+    be = case['bin_edges']
+    if be and be[0] == 'linspace':
+        return np.linspace(be[1], be[2], be[3])
+    return [float(v) for v in be]
+
+
+def oneshot_distinguisher(case):
+    """The STANDALONE distinguisher of the class (scared.<X>Distinguisher), configured like the analysis: automatic classes stay automatic."""
+    import scared
+    kw = {'precision': case['prec']}
+    if case['cls'] in PARTITIONED:
+        kw['partitions'] = None if case['partitions'] is None else np.array(case['partitions'], dtype='int32')
+    if case['cls'] == 'MIA':
+        kw['bin_edges'] = bin_edges_of(case)
+    return getattr(scared, case['cls'] + 'Distinguisher')(**kw)
+
+
+def raw_array(run):
+    n = len(run['samples'])
+    a = np.array(run['samples'], dtype=run['dtype']).reshape(n, -1)
+    return a / run['den'] if run.get('den') else a
 
 
 def analysis_class(case):
@@ -265,15 +307,39 @@ def analysis_class(case):
 def make_ths(run):
     import estraces
     n = len(run['samples'])
-    samples = np.array(run['samples'], dtype=run['dtype']).reshape(n, -1)
+    samples = raw_array(run)
     pt = np.array(run['meta'], dtype='uint8').reshape(n, -1)
     return estraces.read_ths_from_ram(samples=samples, plaintext=pt)
 
 
+_poison = {}
+
+
+def poison_preprocess():
+    """Identity, but refuses a batch holding the poisoned trace (all samples = SENTINEL_SAMPLE)."""
+    if not _poison:
+        import scared
+
+        @scared.preprocess
+        def poison(traces):
+            if np.any(np.all(traces == SENTINEL_SAMPLE, axis=1)):
+                raise PoisonError('preprocess refuses this batch')
+            return traces
+        _poison['f'] = poison
+    return _poison['f']
+
+
+def chain_functions(run, chain=None):
+    P = prep_functions()
+    fs = [P[p] for p in (run['chain'] if chain is None else chain)]
+    if run.get('fail') is not None and run.get('fail_how') == 'preprocess':
+        fs = [poison_preprocess()] + fs
+    return fs
+
+
 def make_container(run):
     import scared
-    P = prep_functions()
-    return scared.Container(make_ths(run), frame=py_frame_obj(run['frame']), preprocesses=[P[p] for p in run['chain']])
+    return scared.Container(make_ths(run), frame=py_frame_obj(run['frame']), preprocesses=chain_functions(run))
 
 
 def install(cont, frame, chain, how, frame_changed=True):
@@ -322,9 +388,18 @@ def build_container(case, run, containers, other_analysis):
     return cont
 
 
-def int_rows(a):
-    """Rows of an integer-valued 2-D array as lists of ints; None when a value is not an integer."""
+def int_rows(a, den=None):
+    """Rows of a 2-D array as lists of ints; None when a value is not an integer.  With den: the values must be EXACTLY the
+    float64 numbers k / den (the numerators k are returned) — a value that went through float32 or an integer dtype is not."""
     a = np.asarray(a)
+    if den:
+        if a.dtype != np.dtype('float64'):
+            return None
+        a = a.reshape(a.shape[0], -1)
+        k = np.round(a * den)
+        if not np.all(np.isfinite(a)) or not np.all(k / den == a):
+            return None
+        return [[int(v) for v in r] for r in k]
     a = a.reshape(a.shape[0], -1).astype('float64')
     if not np.all(np.isfinite(a)) or not np.all(a == np.round(a)):
         return None
@@ -356,6 +431,8 @@ def coq_frame(fr):
 
 
 def coq_model(m):
+    if m[0] == 'hww':
+        return '(MHwWords %s)' % C.coq_nat(m[1])
     return {'value': 'MValue', 'hw': 'MHw'}.get(m[0]) or '(MMonobit %s)' % C.coq_n(m[1])
 
 
@@ -462,23 +539,37 @@ def vary_frame(rng, frame, L):
     return frame
 
 
-def make_case(rng, cls, attack, sizes_bs, L=None, frame_kind=None, nchain=3, dtype=None, leak=None, step=None, history=None):
+def make_case(rng, cls, attack, sizes_bs, L=None, frame_kind=None, nchain=3, dtype=None, leak=None, step=None, history=None,
+              wide=False, scaled=False, fail=None):
     """sizes_bs: list of (N, bs) — one per run().  step: convergence_step (attacks).  history: None | 'reuse' | 'pre' | 'both':
-    the SAME Container object is used again after its public attributes were re-assigned / mutated in place."""
+    the SAME Container object is used again after its public attributes were re-assigned / mutated in place.
+    wide: full-byte metadata and guesses with the library's models incl. HammingWeight(nb_words = 2, 3) (class sets beyond 0..8).
+    scaled (MIA): float64 samples k/10 — not float32-representable, lying on the bin edges linspace(0, 1, 11).
+    fail = (run index, 'preprocess' | 'sf'): that run() raises on the batch holding a poisoned trace."""
     L = L or rng.randint(3, 7)
     dtype = dtype or rng.choice(['uint8', 'uint8', 'int16', 'float32'])
+    if scaled:
+        dtype = 'float64'
+        history = None          # the chains of a history do arithmetic: k/10 would not stay exact
     W = rng.randint(1, 2)
+    top_meta = 255 if wide else 15
     if cls == 'DPA':
-        model = ['monobit', rng.randint(0, 3)]
+        model = ['monobit', rng.randint(0, 7 if wide else 3)]
+    elif wide:
+        model = rng.choice([['value'], ['hw'], ['hww', 2], ['hww', 2], ['hww', 3], ['monobit', rng.randint(0, 7)]])
+        if model[0] == 'hww':
+            W = model[1] * rng.choice([1, 1, 2] if model[1] == 2 else [1])
     elif cls in PARTITIONED:
         model = rng.choice([['value'], ['hw'], ['hw']])
     else:
         model = rng.choice([['value'], ['hw'], ['monobit', rng.randint(0, 3)]])
-    guesses = sorted(rng.sample(range(16), rng.randint(2, 4))) if attack else None
+    guesses = sorted(rng.sample(range(top_meta + 1), rng.randint(2, 4))) if attack else None
     frame = gen_frame(rng, L, frame_kind)
     L1 = len(py_frame(frame, list(range(L))))
     chain = gen_chain(rng, L1, nchain)
-    if cls in PARTITIONED and not chain:
+    if scaled:
+        chain = rng.choice([[], [], ['reverse']])
+    elif cls in PARTITIONED and not chain:
         # one numba compilation per (trace dtype, layout, precision, kernel): the partitioned classes always see float64 traces
         chain = ['add1']
     case = {'cls': cls, 'guesses': guesses, 'model': model, 'disc': rng.choice(list(DISCS)), 'prec': 'float64',
@@ -486,8 +577,10 @@ def make_case(rng, cls, attack, sizes_bs, L=None, frame_kind=None, nchain=3, dty
     leak = rng.random() < 0.5 if leak is None else leak
     lo = 0 if dtype == 'uint8' else -3
     for ri, (N, bs) in enumerate(sizes_bs):
-        meta = [[rng.randint(0, 15) for _ in range(W)] for _ in range(N)]
-        if leak:       # the metadata determines the samples (plus a little noise): a mis-pairing ruins the statistic
+        meta = [[rng.randint(0, top_meta) for _ in range(W)] for _ in range(N)]
+        if scaled:
+            samples = [[rng.randint(0, 10) for _ in range(L)] for _ in range(N)]
+        elif leak:       # the metadata determines the samples (plus a little noise): a mis-pairing ruins the statistic
             samples = [[min(7, max(lo, (bin(m[0]).count('1') + (m[-1] >> (j % 3)) + j) % 6 + rng.choice([0, 0, 0, 1])))
                         for j in range(L)] for m in meta]
         else:
@@ -496,6 +589,8 @@ def make_case(rng, cls, attack, sizes_bs, L=None, frame_kind=None, nchain=3, dty
         if ri > 0 and frame[0] in ('list', 'array') and rng.random() < 0.5:    # another frame of the same length
             fr = [frame[0], [rng.randrange(L) for _ in frame[1]]]
         case['runs'].append({'samples': samples, 'meta': meta, 'dtype': dtype, 'frame': fr, 'chain': chain, 'bs': bs})
+        if scaled:
+            case['runs'][-1]['den'] = 10
     # container histories: "each run uses the attribute values current at that run"
     if history in ('reuse', 'both'):
         for ri in range(1, len(case['runs'])):
@@ -522,7 +617,15 @@ def make_case(rng, cls, attack, sizes_bs, L=None, frame_kind=None, nchain=3, dty
         run['pre'] = {'frame': f0, 'chain': c0, 'use': rng.choice(['run', 'run', 'batch_size', 'trace_size', 'batches']),
                       'how': rng.choice(['assign', 'slice_assign'])}
     # automatic class set: make sure the first trace already shows a value >= 9 (bracket 64 from the first batch on)
-    if cls in PARTITIONED:
+    if cls in PARTITIONED and wide:
+        # the library's models on full bytes: automatic classes (bracket fixed by the first trace) or the explicit full class set
+        g0 = guesses[0] if guesses else 0
+        case['runs'][0]['meta'][0] = [255 ^ g0] * W          # value 255 / all-ones words / bit 1 for guess g0 in the first trace
+        if rng.random() < 0.7:
+            case['partitions'] = None
+        else:
+            case['partitions'] = list(range({'value': 256, 'hw': 9, 'monobit': 2}.get(model[0], 8 * (model[1] if model[0] == 'hww' else 1) + 1)))
+    elif cls in PARTITIONED:
         top = 15 if model[0] == 'value' else 4
         if model[0] == 'value' and rng.random() < 0.25:
             g0 = guesses[0] if guesses else 0
@@ -532,10 +635,25 @@ def make_case(rng, cls, attack, sizes_bs, L=None, frame_kind=None, nchain=3, dty
             case['partitions'] = None            # hw <= 4 < 9: arange(9) whatever the first batch
         else:
             case['partitions'] = list(range(top + 1))
+    # a run() that raises: one poisoned trace (not the first one: Container.trace_size reads it)
+    if fail is not None and history is None:
+        ri, how = fail
+        run = case['runs'][ri]
+        n = len(run['samples'])
+        if n >= 2 and not (how == 'sf' and wide):
+            pidx = rng.randint(max(1, n // 2), n - 1) if rng.random() < 0.7 else rng.randint(1, n - 1)
+            run['fail'], run['fail_how'] = pidx, how
+            run['samples'] = [list(r) for r in run['samples']]
+            run['meta'] = [list(r) for r in run['meta']]
+            if how == 'preprocess':
+                run['samples'][pidx] = [SENTINEL_SAMPLE] * L
+            else:
+                run['meta'][pidx] = [SENTINEL_META] * W
     # settings, processed values, precision
     vals = []
     for run in case['runs']:
-        rows = [py_chain(run['chain'], py_frame(run['frame'], s)) for s in run['samples']]
+        rows = [py_chain(run['chain'], py_frame(run['frame'], s)) for i, s in enumerate(run['samples'])
+                if not (run.get('fail') == i and run.get('fail_how') == 'preprocess')]
         vals += [v for r in rows for v in r]
         size = max(len(rows[0]), len(py_frame(run['frame'], run['samples'][0])))
         # a used Container keeps its first trace_size (cached): histories stay away from tables, which look at it
@@ -550,8 +668,8 @@ def make_case(rng, cls, attack, sizes_bs, L=None, frame_kind=None, nchain=3, dty
         lo_v, hi_v = min(vals), max(vals)
         nb = rng.randint(2, 5)
         w = -(-(hi_v - lo_v + 1) // nb)
-        case['bin_edges'] = [lo_v + w * i for i in range(nb + 1)]
-        case['prec'] = 'float64'
+        case['bin_edges'] = ['linspace', 0, 1, 11] if scaled else [lo_v + w * i for i in range(nb + 1)]
+        case['prec'] = rng.choice(['float64', 'float64', 'float32', 'uint32'])     # MIA accepts any dtype for its counters
     return case
 
 
@@ -585,9 +703,10 @@ class RunKind(Kind):
             'set_batch_size int / table / MB float, N in 1..3*bs+2 (boundary block: N<bs, N=bs, N=k*bs+1, N=k*bs for every bs 1..12), '
             'frames None/Ellipsis/slice with step/range/index list and array with repeats, chains of 0-3 non-commuting row-wise '
             'preprocesses, 1-3 successive run() calls, float32/float64, attacks with and without convergence_step (step <,=,> bs, dividing N or '
-            'not, > N, derived batch size not dividing the step with N a multiple of the step), container histories (the same Container '
+            'not, > N, derived batch size not dividing the step with N a multiple of the step), full-byte metadata with HammingWeight(nb_words 1-3) / Monobit / Value and automatic class sets, MIA on float64 samples k/10 '
+            'with every counter precision, runs that raise on a later batch between successful runs, container histories (the same Container '
             'used again by the same or another analysis object after preprocesses / frame were re-assigned or mutated in place); every update() logged; check_fn (property level): rows fed = SPEC '
-            'rows in order, no empty batch, results/scores = one-shot update of a fresh distinguisher / discriminant; corr_fn (correspondence '
+            'rows in order, no empty batch, results/scores = one-shot update of a the STANDALONE distinguisher / discriminant; corr_fn (correspondence '
             'level): exact batch boundaries = slices, batch size = batch_size_rule; non-trivial = at least two batches in '
             'some run')
 
@@ -650,6 +769,33 @@ class RunKind(Kind):
                     bs = rng.randint(1, 6)
                     c = make_case(rng, cls, rng.random() < 0.5, sizes_for(rng, bs, 1 if hist == 'pre' else rng.randint(2, 3)), history=hist)
                 yield c
+        # --- the library's models on full bytes, HammingWeight(nb_words = 1..3) included, automatic / explicit class sets
+        for cls in ('ANOVA', 'NICV', 'SNR', 'MIA', 'ANOVA', 'SNR', 'MIA', 'CPA', 'DPA'):
+            for attack in (True, False):
+                c = None
+                while c is None:
+                    bs = rng.randint(2, 6)
+                    c = make_case(rng, cls, attack, sizes_for(rng, bs, rng.randint(1, 2)), wide=True)
+                yield c
+        # --- MIA on float64 samples k/10 (not float32-representable, on the bin edges), every counter precision
+        for k in range(12):
+            c = None
+            while c is None:
+                bs = rng.randint(2, 6)
+                c = make_case(rng, 'MIA', k % 2 == 0, sizes_for(rng, bs, rng.randint(1, 2)), scaled=True, wide=k % 3 == 0)
+            yield c
+        # --- histories with a run() that RAISES on a later batch, between successful runs (and as the first run)
+        for k in range(24):
+            cls = CLASSES[k % 6]
+            how = 'preprocess' if k % 2 == 0 else 'sf'
+            bs = rng.randint(1, 4)
+            first = k % 4 == 3
+            sizes = ([] if first else sizes_for(rng, bs, 1)) + [(rng.randint(2, 3) * bs + rng.randint(1, bs), bs)] + sizes_for(rng, bs, 1)
+            c = None
+            while c is None:
+                c = make_case(rng, cls, k % 3 != 0, sizes, fail=(0 if first else 1, how),
+                              step=rng.choice([None, None, 2, 5]) if k % 3 != 0 else None)
+            yield c
         # --- thorough: all N <= 30 x bs <= 12 for CPA (attack) and SNR (reverse), frame + chain fixed per case
         if thorough:
             for bs in range(1, 13):
@@ -671,7 +817,12 @@ class RunKind(Kind):
             sizes = sizes_for(rng, bs, nruns)
             if step and rng.random() < 0.4:      # N a multiple of the step
                 sizes[-1] = (min(rng.randint(1, 4) * step, 40), sizes[-1][1])
-            c = make_case(rng, cls, attack, sizes, step=step, history=hist)
+            r2 = rng.random()
+            fail = None
+            if hist is None and nruns >= 2 and r2 < 0.12:
+                fail = (rng.randrange(nruns - 1), rng.choice(['preprocess', 'sf']))
+            c = make_case(rng, cls, attack, sizes, step=step, history=hist, wide=0.12 <= r2 < 0.27,
+                          scaled=cls == 'MIA' and 0.27 <= r2 < 0.55, fail=fail)
             if c is not None:
                 yield c
 
@@ -680,15 +831,16 @@ class RunKind(Kind):
         patch_lut_cache()
         cls = analysis_class(case)
         log = []
+        den = case['runs'][0].get('den')
 
         class Logged(cls):
             def update(self, traces, data):
-                t = int_rows(traces)
+                t = int_rows(traces, den)
                 d = int_rows(np.asarray(data).reshape(np.asarray(data).shape[0], -1)) if np.asarray(data).ndim >= 1 else None
                 log.append({'traces': t, 'data': d, 'n_traces': int(np.asarray(traces).shape[0]), 'n_data': int(np.asarray(data).shape[0])})
                 return super().update(traces=traces, data=data)
 
-        obs = {'bs': []}
+        obs = {'bs': [], 'fed': [], 'failed': []}
         P = prep_functions()
         try:
             with warnings.catch_warnings():
@@ -705,33 +857,42 @@ class RunKind(Kind):
                         obs['bs'].append(None if b is None else int(b))
                     except ZeroDivisionError:
                         obs['bs'].append(None)
-                    a.run(cont)
+                    before = sum(u['n_traces'] for u in log)
+                    try:
+                        a.run(cont)
+                        obs['failed'].append(False)
+                    except PoisonError:
+                        obs['failed'].append(True)
+                    fed = sum(u['n_traces'] for u in log) - before
+                    obs['fed'].append(fed)
                     # the whole set, computed without Container: samples[:, frame], then the chain; the metadata as they are
                     n = len(run['samples'])
-                    s = np.array(run['samples'], dtype=run['dtype']).reshape(n, -1)
+                    s = raw_array(run)
                     fo = py_frame_obj(run['frame'])
                     s = s[:, ...] if fo is None else s[:, list(fo) if isinstance(fo, range) else fo]
                     for p in run['chain']:
                         s = P[p](s)
-                    all_t.append(np.asarray(s, dtype='float64'))
-                    all_pt.append(np.array(run['meta'], dtype='uint8').reshape(n, -1))
+                    # a run() that raised contributes the rows it handed to update() before
+                    all_t.append(np.asarray(s, dtype='float64')[:fed])
+                    all_pt.append(np.array(run['meta'], dtype='uint8').reshape(n, -1)[:fed])
                 scared.set_batch_size(None)
                 obs['updates'] = log
                 obs['processed'] = int(a.processed_traces)
                 obs['shape'] = [int(v) for v in a.results.shape]
                 obs['results'] = flt(a.results)
                 obs['scores'] = flt(a.scores) if case['guesses'] is not None else None
-                # one-shot: a fresh, unlogged object of the same class, ONE update with everything
-                fresh = cls(**analysis_kwargs(case))
+                # one-shot: the STANDALONE distinguisher of the class (automatic classes stay automatic), ONE update with everything;
+                # intermediate values from fresh selection function and model objects
+                fresh = oneshot_distinguisher(case)
                 traces = np.concatenate(all_t, axis=0)
                 if run['chain'] == [] and run['dtype'] != 'float64':
                     traces = traces.astype(run['dtype'])
-                data = fresh.model(fresh.selection_function(plaintext=np.concatenate(all_pt, axis=0)))
+                data = make_model(case['model'])(make_sf(case['guesses'])(plaintext=np.concatenate(all_pt, axis=0)))
                 fresh.update(traces=traces, data=data)
                 res1 = fresh.compute()
                 obs['one_results'] = flt(res1)
                 obs['one_shape'] = [int(v) for v in res1.shape]
-                obs['one_scores'] = flt(fresh.discriminant(res1)) if case['guesses'] is not None else None
+                obs['one_scores'] = flt(getattr(scared, case['disc'])(res1)) if case['guesses'] is not None else None
         finally:
             scared.set_batch_size(None)
         return obs
@@ -742,10 +903,12 @@ class RunKind(Kind):
             ob = None
             if 'raised' not in obs and i < len(obs['bs']):
                 ob = obs['bs'][i]
-            runs.append('{| r2_rows := %s; r2_frame := %s; r2_chain := %s; r2_setting := %s; r2_itemsize := %s; r2_obs_bs := %s |}' % (
-                C.coq_list([coq_zrow(s, m) for s, m in zip(run['samples'], run['meta'])]), coq_frame(run['frame']),
-                C.coq_list([PREP_COQ[p] for p in run['chain']]), coq_setting(run['setting']), C.coq_z(ITEMSIZE[run['dtype']]),
-                C.coq_option(ob, C.coq_z)))
+            fed = obs['fed'][i] if 'raised' not in obs and i < len(obs['fed']) else 0
+            runs.append('{| r2_rows := %s; r2_frame := %s; r2_chain := %s; r2_setting := %s; r2_itemsize := %s; r2_obs_bs := %s; '
+                        'r2_fail := %s; r2_obs_fed := %s |}' % (
+                            C.coq_list([coq_zrow(s, m) for s, m in zip(run['samples'], run['meta'])]), coq_frame(run['frame']),
+                            C.coq_list([PREP_COQ[p] for p in run['chain']]), coq_setting(run['setting']), C.coq_z(ITEMSIZE[run['dtype']]),
+                            C.coq_option(ob, C.coq_z), C.coq_option(run.get('fail'), C.coq_nat), C.coq_nat(fed)))
         head = 'c2_guesses := %s; c2_model := %s; c2_prec := %s; c2_step := %s; c2_runs := %s; c2_disc := %s' % (
             C.coq_option(case['guesses'], lambda g: C.coq_list(g, C.coq_z)), coq_model(case['model']),
             'F32' if case['prec'] == 'float32' else 'F64', C.coq_option(case.get('step'), C.coq_nat), C.coq_list(runs),
@@ -769,6 +932,9 @@ class RunKind(Kind):
             return f'run() or the one-shot update raised {obs["raised"]}: {obs["msg"]}'
         if obs['shape'] != obs['one_shape']:
             return f'results shape {obs["shape"]} differs from the one-shot shape {obs["one_shape"]}'
+        for i, run in enumerate(case['runs']):
+            if (run.get('fail') is not None) != obs['failed'][i]:
+                return f'run() number {i}: the exception of the poisoned batch was {"not " if run.get("fail") is not None else ""}propagated'
         return None
 
     def nontrivial(self, case, obs):
@@ -780,6 +946,10 @@ class RunKind(Kind):
         f = {'class': case['cls'] + ('Attack' if case['guesses'] is not None else 'Reverse'), 'runs': len(case['runs']),
              'prec': case['prec'], 'chain_len': len(case['runs'][0]['chain']), 'frame': case['runs'][0]['frame'][0],
              'setting': case['runs'][0]['setting'][0], 'auto_partitions': case['cls'] in PARTITIONED and case['partitions'] is None,
+             'fail': next((r['fail_how'] for r in case['runs'] if r.get('fail') is not None), 'none'),
+             'data': 'scaled_k/10' if case['runs'][0].get('den') else 'wide_bytes' if case['model'][0] == 'hww' or any(
+                 v > 15 for r in case['runs'] for m in r['meta'] for v in m if v != SENTINEL_META) else 'nibbles',
+             'model': case['model'][0] + (str(case['model'][1]) if case['model'][0] == 'hww' else ''),
              'history': '+'.join(sorted({'reuse' for r in case['runs'] if r.get('reuse') is not None} |
                                         {'pre:' + r['pre']['use'] for r in case['runs'] if r.get('pre')})) or 'none'}
         st = case.get('step')
@@ -804,7 +974,8 @@ class RunKind(Kind):
     def sample(self, case, obs):
         c = {k: case.get(k) for k in ('cls', 'guesses', 'model', 'disc', 'prec', 'partitions', 'bin_edges', 'step')}
         c['runs'] = [{'n': len(r['samples']), 'frame': r['frame'], 'chain': r['chain'], 'setting': r['setting'], 'dtype': r['dtype'],
-                      'reuse': r.get('reuse'), 'how': r.get('how'), 'pre': r.get('pre')} for r in case['runs']]
+                      'reuse': r.get('reuse'), 'how': r.get('how'), 'pre': r.get('pre'), 'fail': r.get('fail'),
+                      'fail_how': r.get('fail_how')} for r in case['runs']]
         o = {k: obs.get(k) for k in ('bs', 'processed', 'shape')}
         if 'updates' in obs:
             o['update_sizes'] = [u['n_traces'] for u in obs['updates']]
@@ -819,6 +990,8 @@ class RunKind(Kind):
                 if any(r.get('reuse') == i for r in runs):
                     continue
                 new = [dict(r) for j, r in enumerate(runs) if j != i]
+                if new[-1].get('fail') is not None:     # results are only defined after a run() that completes
+                    continue
                 for r in new:
                     if r.get('reuse') is not None and r['reuse'] > i:
                         r['reuse'] -= 1
@@ -834,6 +1007,9 @@ class RunKind(Kind):
                         if j == i or q.get('reuse') == i:
                             q['samples'] = r['samples'][:keep]
                             q['meta'] = r['meta'][:keep]
+                            if q.get('fail') is not None and q['fail'] >= keep:      # the poisoned trace is gone: the run completes
+                                q.pop('fail')
+                                q.pop('fail_how', None)
                     yield dict(case, runs=new)
         if case.get('step') and case['step'] > 1:
             yield dict(case, step=case['step'] - 1)
